@@ -39,10 +39,10 @@ def _specs(seed):
     """4 frames pairwise different in exactly one of (origin, frame id, type) w.r.t. frame 0, so a
     duplicate test that ignores one of the three fields wrongly rejects one of them"""
     base = [
-        (0o1, 0o5, 0x0A10, 65, 0x11, 5),
-        (0o1, 0o5, 0x0A10, 66, 0x00, 0),  # type differs; empty message
-        (0o1, 0o5, 0x0A11, 65, 0xFF, 24),  # id differs
-        (0o2, 0o5, 0x0A10, 65, 0x7E, 33),  # origin differs
+        (0o1, 0o5, 0x8A10, 65, 0x11, 5),  # (ids use all 16 bits)
+        (0o1, 0o5, 0x8A10, 66, 0x00, 0),  # type differs; empty message
+        (0o1, 0o5, 0x0A10, 65, 0xFF, 24),  # id differs - in its top bit only
+        (0o2, 0o5, 0x8A10, 65, 0x7E, 33),  # origin differs
     ]
     out = []
     for i, (frm, to, fid, typ, res, n) in enumerate(base):
@@ -399,11 +399,11 @@ def w_frag_enum(item, rep):
     (origin, id, type) as plain frame j, a fragmented message with its own key, dequeue} x capacity"""
     import itertools
     seed, pid, depth = item
-    plain = [Rec(0o2, 0o1, (0x0C00 + seed) & 0xFFFF, 65, 0, H.pattern(5, seed, 120)),
-             Rec(0o3, 0o1, (0x0C01 + seed) & 0xFFFF, 66, 0, H.pattern(9, seed, 121))]
+    plain = [Rec(0o2, 0o1, (0x9C00 + seed) & 0xFFFF, 65, 0, H.pattern(5, seed, 120)),
+             Rec(0o3, 0o1, (0x1C00 + seed) & 0xFFFF, 66, 0, H.pattern(9, seed, 121))]
     fragd = [Rec(plain[0].from_node, 0o1, plain[0].frame_id, 65, 65, H.pattern(30, seed, 122)),
              Rec(plain[1].from_node, 0o1, plain[1].frame_id, 66, 66, H.pattern(41, seed, 123)),
-             Rec(0o4, 0o1, (0x0C02 + seed) & 0xFFFF, 67, 67, H.pattern(48, seed, 124))]
+             Rec(0o4, 0o1, (0x9C02 + seed) & 0xFFFF, 67, 67, H.pattern(48, seed, 124))]
     ops = [("plain", 0), ("plain", 1), ("frag", 0), ("frag", 1), ("frag", 2), ("deq",)]
     for mx in (1, 2, 6):
         for n in range(1, depth + 1):
@@ -451,7 +451,7 @@ def w_frag_enum(item, rep):
 def _fraghist_msgs(seed):
     """three fragmented messages: 0 and 1 share the frame id (two freshly booted senders), 0 and 2 share the origin;
     message types 1 and 2 are also legal fragment counters (the cache's `reserved` byte holds the type after a LAST)"""
-    fid = (0x0D00 + seed) & 0xFFFF
+    fid = (0xBD00 + seed) & 0xFFFF
     return [Rec(0o2, 0o1, fid, 1, 1, H.pattern(30, seed, 130)), Rec(0o3, 0o1, fid, 65, 65, H.pattern(41, seed, 131)),
             Rec(0o2, 0o1, (fid + 1) & 0xFFFF, 2, 2, H.pattern(60, seed, 132))]
 
@@ -479,7 +479,7 @@ def w_fraghist_enum(item, rep):
     import itertools
     seed, pid, depth, first_op = item
     msgs = _fraghist_msgs(seed)
-    plain = Rec(0o4, 0o1, (0x0D10 + seed) & 0xFFFF, 66, 0, H.pattern(6, seed, 133))
+    plain = Rec(0o4, 0o1, (0x3D00 + seed) & 0xFFFF, 66, 0, H.pattern(6, seed, 133))
     frs = [_fragments(m) for m in msgs]
     ops = [("frag", j, k) for j in range(3) for k in range(len(frs[j]))] + [("plain",), ("deq",)]
     valid = {(m.from_node, m.to_node, m.frame_id, m.message_type, bytes(m.message)): j for j, m in enumerate(msgs)}
